@@ -58,10 +58,23 @@ def lap(x):
         return canon_expr(x.laplace())
 
 
+ENV_DEFAULTS = {'current_sign_convention': 'passive'}       # process-wide switches that are part of what answers depend on
+
+
+def env_lines():
+    from lcapy import state
+    return ['#env %s=%s' % (k, getattr(state, k)) for k, v in sorted(ENV_DEFAULTS.items()) if getattr(state, k) != v]
+
+
 def build(text):
-    """circuit from dump(): netlist text preceded by the constructor argument `kind`"""
-    from lcapy import Circuit
+    """circuit from dump(): netlist text preceded by the process-wide switches that differ from their
+    defaults (only fresh, one-shot interpreters are given such lines) and the constructor argument `kind`"""
+    from lcapy import Circuit, state
     lines = text.split('\n')
+    while lines and lines[0].startswith('#env '):
+        k, v = lines[0][5:].split('=', 1)
+        setattr(state, k, v)
+        lines = lines[1:]
     kind = 'super'
     if lines and lines[0].startswith('#kind '):
         kind = lines[0][6:]
@@ -77,11 +90,12 @@ def dump(c):
     """the data of a circuit: the constructor argument `kind` (set by select()/laplace()/dc()...,
     not part of the netlist text) and the netlist text"""
     k = c.kind
+    env = ''.join(l + '\n' for l in env_lines())
     if k == 'super':
-        return str(c)
+        return env + str(c)
     if not isinstance(k, str):
         k = '?' + str(k)
-    return '#kind %s\n%s' % (k, str(c))
+    return env + '#kind %s\n%s' % (k, str(c))
 
 
 FLAGS = ['is_dc', 'is_ac', 'has_dc', 'has_ac', 'is_IVP', 'is_causal', 'is_time_domain', 'has_transient',
@@ -109,7 +123,7 @@ DERIVE_ENTRY = {
 }
 MUT_ENTRY = {
     'add': ['add'], 'remove': ['remove'], 'open_circuit': ['open_circuit'], 'short_circuit': ['short_circuit'],
-    'netfile_add': ['netfile_add'],
+    'netfile_add': ['netfile_add'], 'rename_node': ['cb:rename'],
 }
 
 
@@ -242,6 +256,8 @@ def mutate(c, m):
         c[m['name']].open_circuit()
     elif h == 'short_circuit':
         c[m['name']].short_circuit()
+    elif h == 'rename_node':
+        c[m['name']].rename(m['new'])
     elif h == 'netfile_add':
         if 'file_text' in m:
             import os
@@ -251,6 +267,13 @@ def mutate(c, m):
         c.netfile_add(m['file'])
     else:
         raise ValueError('unknown mutator ' + h)
+
+
+def set_env(e):
+    from lcapy import state
+    if e['name'] not in ENV_DEFAULTS:
+        raise ValueError('unknown switch ' + e['name'])
+    setattr(state, e['name'], e['val'])
 
 
 def transform(t):
